@@ -639,6 +639,23 @@ func (pr *ProtoArray) OnPrune(ctx context.Context, anchorRoot Root, anchorSlot S
 		// update offset
 		pr.indexOffset++
 	}
+	// Detach the remaining nodes from pruned parents, their indices are not valid anymore.
+	for i := range pr.nodes {
+		node := &pr.nodes[i]
+		if node.TransitionParent != NONE && node.TransitionParent < pr.indexOffset {
+			node.TransitionParent = NONE
+		}
+		if node.ForkchoiceParent != NONE && node.ForkchoiceParent < pr.indexOffset {
+			if anchorIndex == pr.indexOffset && node.ParentRoot == anchorRoot && node.Ref.Slot > anchorSlot {
+				// A block that builds on the anchor root after the anchor slot has the first node of
+				// its parent root as forkchoice parent: that is the anchor node from now on.
+				node.ForkchoiceParent = anchorIndex
+			} else {
+				node.ForkchoiceParent = NONE
+			}
+			pr.updatedConnections = false
+		}
+	}
 	return err
 }
 
